@@ -347,6 +347,7 @@ type Decl struct {
 	Op   string `json:"op"` // NewFunc (declaration) NewGlobal NewGlobalDef NewAlias NewIFunc
 	Name string `json:"name"`
 	Ty   Type   `json:"ty"`
+	AS   int    `json:"as,omitempty"` // address space of a declared global
 	Init *Const `json:"init,omitempty"`
 }
 
